@@ -2,7 +2,8 @@
    Only statements, [exact]s and Print Assumptions live here. *)
 From NDN Require Import Base.Prelude Base.Text Model.LvsAst Model.LvsChecker Model.LvsCompiler Spec.LvsSem Spec.LvsTree.
 From NDN Require Import Proofs.LvsMachine Proofs.LvsTreePaths Proofs.LvsCheckerThms Proofs.LvsSanity
-  Proofs.LvsFlatten Proofs.LvsGenTree Proofs.LvsCompileTree Proofs.LvsCompileThms.
+  Proofs.LvsFlatten Proofs.LvsGenTree Proofs.LvsCompileTree Proofs.LvsCompileThms Proofs.LvsCompileAccepts.
+From NDN Require Import Spec.LvsChains.
 Local Open Scope N_scope.
 
 (* Checker.match on any model that passes the loader = "there is a root-to-node path whose edges are
@@ -48,3 +49,20 @@ Theorem C11_match_iff_partial (ufn : ufn_t) S chains st m :
                (exists rc, In rc chains /\ ch_id rc = r /\ chain_sem_from ufn 0 rc nm [] c').
 Proof. exact (match_chains ufn S chains st m). Qed.
 Print Assumptions C11_match_iff_partial.
+
+(* the same for every schema free of static errors ([static_ok], [schema_wf] as in C13_compile_accepts): it compiles, and
+   Checker.match on the result reports rule r with context c' iff one of the numbered chains of r is satisfied.
+   The only link missing for [C11_match_iff_statement] is now: the chains [chains_of S] of rule r mean [sem S r]. *)
+Theorem C11_match_iff_partial_static (ufn : ufn_t) S : static_ok S = true -> schema_wf S = true ->
+  exists chains st m, chains_of S = Ok (chains, st) /\ compile S = Ok m /\ sane m /\
+  forall fuel name nm l r,
+    strip_digest name = Ok nm -> (match_cost m nm <= fuel)%nat -> lvs_match ufn m fuel name = Ok l -> not_pseudo r ->
+    forall c', (exists rs, In (rs, context_to_name m c') l /\ In r rs /\
+                           exists n, tree_match ufn m nm [] n c' /\ node_rule_names m n = Ok rs) <->
+               (exists rc, In rc chains /\ ch_id rc = r /\ chain_sem_from ufn 0 rc nm [] c').
+Proof.
+  intros H1 H2. destruct (compile_accepts S H1 H2) as (chains & st & m & Hc & Hm & Hok).
+  exists chains, st, m. split; [exact Hc|]. split; [exact Hm|]. split; [exact (compile_sane ufn S chains st m Hc Hm Hok)|].
+  exact (match_chains ufn S chains st m Hc Hm Hok).
+Qed.
+Print Assumptions C11_match_iff_partial_static.
